@@ -46,8 +46,8 @@ PROPS = {
         assumptions=COMMON_ASSUME + ["creation/destruction of an engine is ordered with its uses by the user (plan order per slot)"],
         expected_probes=["probe_destroyed_by_other_thread_than_user", "fault_engine_recreate_same_address"],
         **two(40, 420,
-              {"asan": {"workers": 10}, "plain": {"workers": 6}},
-              {"asan": {"workers": 10}, "plain": {"workers": 6}}),
+              {"asan": {"workers": 8}, "plain": {"workers": 4}, "tsan": {"workers": 4}},
+              {"asan": {"workers": 8}, "plain": {"workers": 4}, "tsan": {"workers": 4}}),
     ),
     "C09": dict(
         level="fault_enumeration",
@@ -113,8 +113,8 @@ PROPS = {
                                      "user conversions are documented as not part of State and are not generated"],
         expected_probes=["fault_state_restore", "probe_restored_older_than_latest_snapshot", "probe_background_eval_overlapped_chain_op", "fault_throw_mid_eval"],
         **two(40, 420,
-              {"asan": {"workers": 10}, "plain": {"workers": 6}},
-              {"asan": {"workers": 10}, "plain": {"workers": 6}}),
+              {"asan": {"workers": 8}, "plain": {"workers": 4}, "tsan": {"workers": 4}},
+              {"asan": {"workers": 8}, "plain": {"workers": 4}, "tsan": {"workers": 4}}),
     ),
     "C04": dict(
         level="exploration",
